@@ -60,8 +60,10 @@ ASSUMPTIONS = [
     f"{ALPHA_TEST:g} each = {ALPHA_TOTAL:g} / {MAX_TESTS:g}; the run exits 2 "
     "if it performs more tests than that, so the total false-alarm "
     "probability over a run is below 1e-9",
-    "np.random.rand draws on a 2^-53 grid: acceptance probabilities differ "
-    "from w/w_max by < 2^-52, far below the resolution of the tests",
+    "np.random.rand draws on a 2^-53 grid that contains 0: acceptance "
+    "probabilities differ from w/w_max by < 2^-52 (the upper-tail test uses "
+    "max(p, 2^-53) for rows with a finite weight), far below the resolution "
+    "of the tests",
     "in nlive mode the reference weights are L_i (X_{i-1}-X_i) with the "
     "documented shrinkage schedule, computed independently in float64; rows "
     "within 1e-9 of the maximum weight are only tested one-sidedly",
@@ -118,16 +120,28 @@ def build_samples(N, case, offset=0.0):
     return s
 
 
-def binom_bad(k, R, p):
+def binom_bad(k, R, p, p_floor=None):
     """Indices whose count k is outside the exact two-sided binomial
-    acceptance region at ALPHA_TEST."""
+    acceptance region at ALPHA_TEST.
+
+    p_floor: lower bound on the true selection probability used for the
+    upper tail only (rejection sampling compares with log(u), u on a 2^-53
+    grid that contains 0, so a row with any finite weight is kept with
+    probability >= 2^-53 even when w/w_max underflows)."""
     from scipy.stats import binom
 
     k = np.asarray(k)
     p = np.clip(np.asarray(p, dtype=float), 0.0, 1.0)
+    p_up = p if p_floor is None else np.maximum(p, p_floor)
     lo = binom.cdf(k, R, p)
-    hi = binom.sf(k - 1, R, p)
+    hi = binom.sf(k - 1, R, p_up)
     return np.where((lo < ALPHA_TEST / 2) | (hi < ALPHA_TEST / 2))[0], lo, hi
+
+
+def _floor(lw, method):
+    if method != "rejection_sampling":
+        return None
+    return np.where(np.isfinite(lw), 2.0**-53, 0.0)
 
 
 def ns_ref_log_weights(logL, nlive, expectation):
@@ -266,13 +280,9 @@ def check_ess(case):
             raise Violation(f"{type(e).__name__}:{where}", f"{e!r}", case)
 
     arg = lw.tolist() if case.get("as_list") else lw.copy()
-    keep = lw.copy()
     e0 = _check_ess_value(
         case, call(lambda: effective_sample_size(arg),
                    "effective_sample_size"), lw, "function")
-    if not case.get("as_list") and arg.tobytes() != keep.tobytes():
-        raise Violation("ess:function:input-modified",
-                        "effective_sample_size changed its argument", case)
     if c:
         lws = lw + c
         e1 = call(lambda: effective_sample_size(lws),
@@ -369,7 +379,7 @@ def check_freq_repeat(case, counter):
         p, trials = w, R
     else:
         p, trials = w / math.fsum(w), total
-    bad, lo, hi = binom_bad(counts, trials, p)
+    bad, lo, hi = binom_bad(counts, trials, p, _floor(lw, method))
     counter["binomial_tests"] += N
     if len(bad):
         i = int(bad[0])
@@ -404,7 +414,7 @@ def check_freq_tile(case, counter):
         p, trials = w, K * T
     else:
         p, trials = w / math.fsum(w), total
-    bad, lo, hi = binom_bad(counts, trials, p)
+    bad, lo, hi = binom_bad(counts, trials, p, _floor(block, method))
     counter["binomial_tests"] += m
     if len(bad):
         i = int(bad[0])
@@ -448,7 +458,7 @@ def check_nlive(case, counter):
         p, trials = w, R
     else:
         p, trials = w / math.fsum(w), total
-    bad, lo, hi = binom_bad(counts, trials, p)
+    bad, lo, hi = binom_bad(counts, trials, p, _floor(ref, method))
     counter["binomial_tests"] += N
     # near-maximum rows: the implementation's own maximum may be a
     # different row when two weights agree to rounding; one-sided there
